@@ -81,8 +81,33 @@ def impl_case(case):
                         r["finish"] = {"outcome": f["outcome"], "error": f.get("error")}
         finally:
             shutil.rmtree(d, ignore_errors=True)
+        if case.get("fixed") and r["outcome"] == "ok":
+            # the same pair once more with a fixed-sequence file (pepper-compiler --fixed)
+            fr = implrun.compile_files({"prog.comp": case[tag], "fix.fixed": case["fixed"]}, "prog", fixed="fix.fixed")
+            if fr["outcome"] == "ok":
+                try: fr["lines"] = pepper.read_pil(fr["text"])
+                except ValueError as e: fr["lines"] = None
+                del fr["text"]
+            r["fixed"] = fr
         out[tag] = r
     return out
+
+BASES = {"A": "A", "C": "C", "G": "G", "T": "T", "R": "AG", "Y": "CT", "W": "AT", "S": "CG", "M": "AC", "K": "GT", "B": "CGT", "V": "ACG", "D": "AGT", "H": "ACT", "N": "ACGT"}
+def fixed_for(rng, prog):
+    """a fixed-sequence file pinning one or two strands of the program to concrete bases allowed by their templates"""
+    try: den = pepper.den_src(prog, "", 0)
+    except (ValueError, KeyError, ZeroDivisionError, TypeError): return None
+    if not den or not den["strands"]: return None
+    names = [n for n in den["strands"] if den["strands"][n][1]]
+    if not names: return None
+    chosen = {}; out = []
+    for n in rng.sample(names, min(len(names), rng.choice([1, 2]))):
+        s = ""
+        for (d, i, r) in den["strands"][n][1]:
+            x = chosen.setdefault((d, i), rng.choice(BASES.get(den["doms"][d][i], "ACGT")))
+            s += {"A": "T", "T": "A", "C": "G", "G": "C"}[x] if r else x
+        out.append("strand %s = %s" % (n, s))
+    return "\n".join(out) + "\n"
 
 def strip_zero(den):
     return den
@@ -153,7 +178,8 @@ def run(tier, seed, build):
         p2, how, touched = insert_zeros(rng, prog)
         cases.append({"prog": prog, "prog2": p2, "how": how, "touched": touched,
                       "base": pepper.comp_text(rng, prog), "zero": pepper.comp_text(rng, p2), "seed": rng.randrange(10**9)})
-    impl = fw.run_impl("props.c14", "impl_case", [{"base": c["base"], "zero": c["zero"], "seed": c["seed"]} for c in cases], per_case_timeout=40)
+        cases[-1]["fixed"] = fixed_for(rng, prog) if i % 3 == 1 else None
+    impl = fw.run_impl("props.c14", "impl_case", [{"base": c["base"], "zero": c["zero"], "seed": c["seed"], "fixed": c["fixed"]} for c in cases], per_case_timeout=40)
     reqs = []
     for c, r in zip(cases, impl):
         z = r.get("zero", {}) if isinstance(r, dict) else {}
@@ -190,6 +216,18 @@ def run(tier, seed, build):
             a1, a2 = b["arrays"][lay], z["arrays"][lay]
             if a1["outcome"] == "ok" and a2 != a1:
                 failures.append({"kind": "predicate", "key": "arrays-" + lay, "summary": "designer front-end (%s layout) gives different arrays / fails once zero-length domains are inserted: %s" % (lay, a2.get("error", "arrays differ")[:150]), "replay": rep})
+        bf, zf = b.get("fixed"), z.get("fixed")
+        if bf and bf.get("outcome") == "ok" and bf.get("lines") is not None:
+            dist["with_fixed_file"] = dist.get("with_fixed_file", 0) + 1
+            frep = dict(rep, files=dict(rep["files"], **{"fix.fixed": c["fixed"]}), reproduce="compile both with --fixed fix.fixed")
+            if not zf or zf.get("outcome") != "ok" or zf.get("lines") is None:
+                failures.append({"kind": "predicate", "key": "fixed-zero-rejected", "summary": "with a fixed-sequence file, inserting zero-length domains makes an accepted program fail: %s" % (zf or {}).get("error", "")[:150], "replay": frep})
+            else:
+                try:
+                    if c10.rename_anon(pepper.den_pil(bf["lines"]), 0) != c10.rename_anon(pepper.den_pil(zf["lines"]), 0):
+                        failures.append({"kind": "predicate", "key": "fixed-den-changed", "summary": "with a fixed-sequence file, inserting zero-length domains changes the templates of other nucleotides", "replay": frep})
+                except ValueError as e:
+                    failures.append({"kind": "predicate", "key": "fixed-pil-illformed", "summary": "fixed + zero-length: the emitted .pil is not well formed: %s" % e, "replay": frep})
         if z["arrays"]["strand"]["outcome"] == "ok" and z.get("finish", {}).get("outcome") != "ok":
             failures.append({"kind": "predicate", "key": "finish", "summary": "the finisher cannot process the program with zero-length domains: %s" % str(z.get("finish"))[:200], "replay": rep})
     # system leg: a signal bound to a super-sequence port with a zero-length member, both back-ends
